@@ -7,6 +7,8 @@ import decimal
 import math
 import time
 
+decimal = decimal          # re-exported for property modules
+
 from hypothesis import strategies as st
 
 from pbt import canon, spec_table
@@ -315,8 +317,21 @@ def repair(v, good=7):
 
 # ---------------------------------------------------------------- field values
 
+def twin_lists():
+    """two equal-comparing but distinguishable values side by side in one array"""
+    return st.one_of(
+        st.builds(lambda y, m, us, o: list(fold_pair(y, m, us))[::1 if o else -1],
+                  st.integers(1971, 2105), st.integers(0, 59), st.integers(0, 999999),
+                  st.booleans()),
+        st.sampled_from([[1.0, 1], [1, 1.0], [True, 1], [0, False, 0.0],
+                         [decimal.Decimal('1.0'), decimal.Decimal('1.00')],
+                         [canon.IntSub(40000), 40000], [40000, canon.IntSub(40000)],
+                         [canon.IntSub(3000000000)], [canon.IntSub(-5), canon.IntSub(200)]]))
+
+
 def leaves():
     return st.one_of(
+        twin_lists(),
         st.booleans(),
         table_ints(),
         table_ints(),
